@@ -34,11 +34,11 @@ EXPECT = {
         (r"updated_nodes\.\[\]\.room_id$", r"old", "re-dated source row: previous day"),
     ],
     "node::NodeDeletionEntry::delete_all": [
-        (r"nodes\.\[\]\.room_id$", r"nodes\.\[\]\.deletion_date$", "deletion day"),
-        (r"nodes\.\[\]\.room_id$", r"nodes\.\[\]\.mdate$", "deleted row's day"),
+        (r"^[^.]+\.\[\]\.room_id$", r"^[^.]+\.\[\]\.deletion_date$", "deletion day"),
+        (r"^[^.]+\.\[\]\.room_id$", r"^[^.]+\.\[\]\.mdate$", "deleted row's day"),
     ],
     "edge::EdgeDeletionEntry::delete_all": [
-        (r"edges\.\[\]\.room_id$", r"edges\.\[\]\.deletion_date$", "deletion day"),
+        (r"^[^.]+\.\[\]\.room_id$", r"^[^.]+\.\[\]\.deletion_date$", "deletion day"),
     ],
 }
 
@@ -60,6 +60,28 @@ def marks_of(b):
                 eqg = True
         out.append({"block": bi, "room": full_path(b, a[1]), "entity": full_path(b, a[2]), "date": full_path(b, a[3]), "room_cmp_guard": eqg, "loc": b.loc(bi)})
     return out
+
+
+def role_of(cp, carried, l):
+    """which DailyLog field a carried hash mirrors: the field of the DailyLog literal (add_log) whose operand is the
+    local the carried variable is assigned from on the recompute arm"""
+    fields = {}
+    for bi in cp.live_blocks():
+        for si, st in enumerate(cp.blocks[bi]["s"]):
+            rv = st["rv"]
+            if rv["r"] == "aggr" and rv.get("adt", "").endswith("daily_log::DailyLog"):
+                t = cp.def_term(bi, si, rv, 0)
+                for fname, op in zip(t[5], t[4]):
+                    u = mir.strip(op)
+                    if u[0] == "var" and len(u) > 2:
+                        fields[u[2]] = fname
+    for (bi, si, rv, lhs) in carried[l][2]:
+        if si is None:
+            continue
+        u = mir.strip(cp.def_term(bi, si, rv, 0))
+        if u[0] == "var" and len(u) > 2 and u[2] in fields:
+            return {"daily_hash": "hash", "history_hash": "history"}.get(fields[u[2]], fields[u[2]])
+    return "#%d" % sorted(carried).index(l)
 
 
 def run(P, C, tier):
@@ -147,6 +169,21 @@ def run(P, C, tier):
                     ok = False
                     det += " -- but only under a comparison between the old and the new version (room or day): the mark of the previous (room, day) must be unconditional, every combination of same/other room and same/other day changes that day's content"
             C.ob("R3", "%s:%s" % (short, what.replace(" ", "-").replace(",", "")), ok, hit[0]["loc"] if hit else b.loc(), det)
+        # a writer that recurses into sub-entities does so on every path: a child row can belong to a room although
+        # its parent does not (explicit room_id on the sub-entity), so the recursion must not hang on the parent's state
+        rec = [bi for bi, t in b.live_calls() if callee_name(t) == mir.normalize(b.id) or callee_name(t).endswith("::" + short)]
+        if rec:
+            hs = []
+            for hb, ht in b.live_calls():
+                if callee_name(ht).endswith("::next") and "d:ForLoop" in ht["at"][1]:
+                    loop = {x for x in b.reach_after(hb) if hb in b.reach_after(x)}
+                    if all(r in loop for r in rec):
+                        hs.append((len(loop), hb))
+            ok = False
+            if hs:
+                outer = [hb for _, hb in hs if all(b.dominates(hb, h2) for _, h2 in hs)][0]
+                ok = not (b.reachable(0, avoid_blocks={outer}) & set(b.exits()))
+            C.ob("R3", "%s:sub-entities-always-visited" % short, ok, b.loc(rec[0]), "every path through %s reaches the loop that recurses into the sub-entities (no early exit on the parent's room or version)" % short)
         # entity argument belongs to the same row as the room
         for m in ms:
             base_r = m["room"].rsplit(".", 1)[0]
@@ -192,50 +229,88 @@ def run(P, C, tier):
                     C.ob("R4", "day-bounds", nd is not None and strip_refs(nd[2][0]) == strip_refs(p3), cp.loc(bi), "bounds are [date, date_next_day(date))")
         else:
             C.ob("R4", "statement", False, cp.loc(), det)
-        # R5: history continuation
+        # R5: history continuation.  Everything is identified structurally: the processing loop is the loop that
+        # contains the UPDATEs of _daily_log; a carried variable is defined before that loop and assigned inside it.
+        upd = [bi for bi, t in cp.calls_to(r"Statement::execute$")]
+        hdr = None
+        for hb, ht in cp.live_calls():
+            if not callee_name(ht).endswith("::next"):
+                continue
+            loop = {x for x in cp.reach_after(hb) if hb in cp.reach_after(x)}
+            if upd and all(u in loop for u in upd) and (hdr is None or hb in hdr[1]):
+                hdr = (hb, loop)
+        if hdr is None:
+            raise mir.MissingAnchor("the loop of DailyLogsUpdate::compute that updates _daily_log")
+        H, LOOP = hdr
+        carried = {}
+        for l, nme, lty, leaf in cp.named_locals():
+            ds = [(bi, si, rv, lhs) for (bi, si, rv, lhs) in cp.defs().get(l, ()) if len(lhs) == 1 and not cp.blocks[bi]["cl"] and bi in cp.live_blocks()]
+            if any(bi not in LOOP and cp.dominates(bi, H) for bi, si, rv, lhs in ds) and any(bi in LOOP for bi, si, rv, lhs in ds):
+                carried[l] = (nme, lty, ds)
+
+        def carried_of(t, ty_re):
+            """the carried variable (of a type) a term is rooted in, looking through `if let Some(x) = &carried`"""
+            for x in mir.subterms(t):
+                if x[0] == "var" and len(x) > 2:
+                    if x[2] in carried and re.search(ty_re, carried[x[2]][1]):
+                        return x[2]
+                    for d in cp.var_defs(x):
+                        for y in mir.subterms(d):
+                            if y[0] == "var" and len(y) > 2 and y[2] in carried and re.search(ty_re, carried[y[2]][1]):
+                                return y[2]
+            return None
         n = 0
+        seen_sites = set()
         for bi, t in cp.calls_to(r"blake3::Hasher::update$"):
+            if bi not in LOOP:
+                continue
             a = cp.call_args(bi)
-            if field_path(a[1]) != "previous":
+            src = carried_of(a[1], r"Option<.*Vec<u8>>")
+            if src is None:
                 continue
             g = cp.guards(bi, expand_vars=False)
             room_eq = ent_eq = False
-            for s, vals, term in g:
+            rec = "carry-over"
+            for s_, vals, term in g:
                 atom, truth = mir.cond_atoms(term, vals)
-                if atom[0] == "call" and atom[1].endswith("::eq") and truth is True:
-                    ps = {field_path(x) for x in atom[2]}
-                    if ps == {"previous_room", "room"}:
-                        room_eq = True
-                    if ps == {"previous_entity", "entity"}:
-                        ent_eq = True
-            rec = "recompute" if any(mir.cond_atoms(term, vals)[0][:2] == ("var", "need_recompute") and mir.cond_atoms(term, vals)[1] is True for s, vals, term in g) else "carry-over"
+                if atom[0] == "call" and atom[1].endswith("::eq") and truth is True and len(atom[2]) == 2:
+                    x, y = atom[2]
+                    for ty_re, which in ((r"^\[u8; 16\]$", "room"), (r"String$", "entity")):
+                        cx, cy = carried_of(x, ty_re), carried_of(y, ty_re)
+                        tx, ty_ = cp.root_type(mir.strip(x)), cp.root_type(mir.strip(y))
+                        if (cx is None) != (cy is None) and re.search(ty_re, mir.short_type(tx)) and re.search(ty_re, mir.short_type(ty_)):
+                            if which == "room":
+                                room_eq = True
+                            else:
+                                ent_eq = True
+                if atom[0] == "var" and len(atom) > 2 and atom[2] not in carried and cp.locals[atom[2]] == "bool" and truth is True:
+                    rec = "recompute"
+            if (rec, src) in seen_sites:
+                continue
+            seen_sites.add((rec, src))
             n += 1
-            C.ob("R5", "chain:" + rec, room_eq and ent_eq, cp.loc(bi), "history chained from the previous entry only when previous_room==room (%s) and previous_entity==entity (%s)" % (room_eq, ent_eq))
+            label = "chain:" + rec if re.search(r"history", role_of(cp, carried, src)) else "chain:%s:%s" % (rec, role_of(cp, carried, src))
+            C.ob("R5", label, room_eq and ent_eq, cp.loc(bi), "history chained from the previous entry only when previous room == room (%s) and previous entity == entity (%s)" % (room_eq, ent_eq))
         C.floor("R5", "history continuation sites", n, 2)
-        # the carried values: after every row, previous_hash / previous_history hold that row's (stored or computed)
-        # hashes; a literal None makes the next recomputed day start an empty chain although a predecessor exists
-        for var, src in (("previous_history", "history_hash"), ("previous_hash", "daily_hash")):
+        # the carried values: after every row, the carried hashes hold that row's (stored or computed) hashes; a literal
+        # None makes the next recomputed day start an empty chain although a predecessor exists
+        for l, (nme, lty, ds) in sorted(carried.items()):
+            if not re.search(r"Option<.*Vec<u8>>", lty):
+                continue
+            role = role_of(cp, carried, l)
             bad = []
             good = 0
-            for l, nme in cp.names.items():
-                if nme != var:
+            for (bi, si, rv, lhs) in ds:
+                if si is None or bi not in LOOP:
                     continue
-                for (bi, si, rv, lhs) in cp.defs().get(l, ()):
-                    if si is None or len(lhs) != 1 or cp.blocks[bi]["cl"] or bi not in cp.live_blocks():
-                        continue
-                    t = cp.def_term(bi, si, rv, 0)
-                    hdrs = [hb for hb, ht in cp.live_calls() if callee_name(ht).endswith("Rows::next")]
-                    in_loop = any(cp.dominates(hb, bi) for hb in hdrs)
-                    if not in_loop:
-                        continue   # initialisation before the loop
-                    u = strip_refs(t)
-                    if u[0] == "aggr" and u[3] == "None":
-                        bad.append("%s:%d" % (cp.file, cp.blocks[bi]["s"][si]["at"][0]))
-                    else:
-                        good += 1
-            C.ob("R5", "carried:" + var, not bad and good >= 2, bad[0] if bad else cp.loc(),
-                 "inside the row loop `%s` is always taken from the current row (%s, stored or just computed); assignments of a literal None: %s -- after a predecessor row that is not "
-                 "recomputed the next recomputed day then gets no history hash, so the chained history depends on which days are recomputed together" % (var, src, bad or "none"))
+                u = strip_refs(cp.def_term(bi, si, rv, 0))
+                if u[0] == "aggr" and u[3] == "None":
+                    bad.append("%s:%d" % (cp.file, cp.blocks[bi]["s"][si]["at"][0]))
+                else:
+                    good += 1
+            C.ob("R5", "carried:previous_" + role, not bad and good >= 2, bad[0] if bad else cp.loc(),
+                 "inside the row loop the carried %s is always taken from the current row (stored or just computed); assignments of a literal None: %s -- after a predecessor row that is not "
+                 "recomputed the next recomputed day then gets no history hash, so the chained history depends on which days are recomputed together" % (role, bad or "none"))
         # add_log on the recompute arm
         al = cp.calls_to(r"DailyLogsUpdate::add_log$")
         C.ob("R5", "recomputed-entries-reported", len(al) == 1, cp.loc(), "every recomputed entry is added to the update (feeds C18)", nontrivial=False)
@@ -254,3 +329,83 @@ def run(P, C, tier):
         C.ob("R6", "mark-statement", ok, w.loc(), "upsert sets need_recompute=1 and clears daily_hash")
     except mir.MissingAnchor as e:
         C.anchor_missing("R6", "set_need_update", e)
+    r7_cursor_writes(P, C)
+
+
+READ_T = re.compile(r"\b(?:FROM|JOIN)\s+([A-Za-z_][A-Za-z0-9_]*)", re.I)
+WRITE_T = re.compile(r"\b(?:UPDATE\s+(?:OR\s+\w+\s+)?|INSERT\s+(?:OR\s+\w+\s+)?INTO\s+|DELETE\s+FROM\s+|REPLACE\s+INTO\s+)([A-Za-z_][A-Za-z0-9_]*)", re.I)
+LOG_TABLES = {"_daily_log", "_node", "_edge", "_node_deletion_log", "_edge_deletion_log"}
+
+
+def _stmt_text(b, term):
+    for x in mir.subterms(term):
+        if x[0] == "call" and re.search(sql.PREPARE, x[1]) and len(x[2]) >= 2:
+            t, _ = sql.text_of(x[2][1])
+            if t:
+                return t
+    return None
+
+
+def r7_cursor_writes(P, C):
+    """SQLite leaves undefined which rows a SELECT that is still being stepped returns once its table is modified
+    (rows can be skipped or returned twice).  The log is then a function of the visiting accident, not of the content."""
+    C.rule("R7", "no statement writes a table of the daily log computation (_daily_log, _node, _edge, deletion logs) inside the loop that is still stepping a SELECT over that table (directly or through a callee)")
+    callees, _ = P.callgraph()
+    wsets = {}
+    for b in P.bodies.values():
+        s_ = set()
+        for bi, cn, text, holes, term in sql.statements(b):
+            if text:
+                s_ |= set(WRITE_T.findall(text))
+        wsets[b.id] = s_
+
+    def trans(fid, seen):
+        out = set(wsets.get(fid, ()))
+        for c in callees.get(fid, ()):
+            if c not in seen:
+                seen.add(c)
+                out |= trans(c, seen)
+        return out
+    n = 0
+    for b in P.bodies.values():
+        if not b.file.startswith("src/") or b.file.endswith("_test.rs") or b.from_expansion:
+            continue
+        for nb, nt in b.calls_to(r"Rows::next$"):
+            rows = b.call_args(nb, expand_vars=True)[0]
+            q = mir.has_call(rows, r"Statement::query$")
+            if q is None:
+                continue
+            text = _stmt_text(b, q[2][0])
+            if not text:
+                continue
+            reads = set(READ_T.findall(text)) & LOG_TABLES
+            if not reads:
+                continue
+            n += 1
+            after = b.reach_after(nb)
+            loop = {x for x in after if nb in b.reach_after(x)}
+            bad = []
+            for wb in sorted(loop):
+                t = b.blocks[wb]["t"]
+                if t["k"] != "call":
+                    continue
+                cn = callee_name(t)
+                w = set()
+                if re.search(r"Statement::(execute|insert)$", cn):
+                    tx = _stmt_text(b, b.call_args(wb, expand_vars=True)[0])
+                    w = set(WRITE_T.findall(tx)) if tx else {"?"}
+                elif re.search(r"Connection::execute$", cn):
+                    tx, _ = sql.text_of(b.call_args(wb, expand_vars=True)[1])
+                    w = set(WRITE_T.findall(tx)) if tx else {"?"}
+                else:
+                    for name in (t.get("rf"), t.get("f"), mir.normalize(t.get("rf") or ""), mir.normalize(t.get("f") or "")):
+                        if name and name in P.bodies:
+                            w |= trans(name, {name})
+                hit = (w & reads) or ("?" in w)
+                if hit:
+                    bad.append("%s writes %s" % (b.loc(wb), sorted(w & reads) or "an unknown table"))
+            C.saw(b)
+            C.ob("R7", "cursor:%s:%s" % (mir.short(b.id), "+".join(sorted(reads))), not bad, b.loc(nb),
+                 "rows of %s are stepped by this loop; writes to the same table inside the loop: %s" % (sorted(reads), bad or "none"))
+    C.floor("R7", "cursors over the tables of the log computation", n, 8)
+
